@@ -477,6 +477,7 @@ package commonmark
 //@   serves C11, C04
 
 //@ func verifBucketLemma
-//@   requires o.n >= 0 && c1.n >= 0 && c2.n >= 0
+//@   requires 0 <= o.n && o.n <= 281474976710656 && 0 <= c1.n && c1.n <= 281474976710656 && 0 <= c2.n && c2.n <= 281474976710656
 //@   ensures[bucket] result
+//@   inlinecall delimiterStackElement.openersBottomIndex
 //@   serves C11
